@@ -22,6 +22,9 @@ use serde_json::json;
 /// meta characters, multi-byte names whose bytes overlap, and a newline.
 const EXTRA_COMPONENTS: &[&str] = &[
     "foo", "a.rs", "b.rs", "*", "?", "**", "[a]", "\\", "a,b", "é", "à", "éé", "a\nb", "c", "ac", "abc", "{a}", "]", "!", "a*",
+    // names that a pattern FILE would treat specially (comment marker, surrounding white space) but that
+    // are ordinary when given directly
+    "#x#", "#", " a", "a ", "\tb",
 ];
 
 fn path_alphabet() -> Vec<&'static str> {
